@@ -85,9 +85,16 @@ class Ref:
                 raise Invalid()
             self.st[i] = [ow, cap, vs]
             gained = list(vs)
-        elif op in ("pb", "eb", "pf", "ef"):
+        elif op in ("pb", "eb", "pf", "ef", "pbs", "ebs", "pfs", "efs"):
             o = self.need(int(a[0]))
-            v = int(a[1])
+            if op.endswith("s"):
+                # aliasing push: the argument is the buffer's own element a[1] (its value at the time of the call)
+                if int(a[1]) >= len(o[2]):
+                    raise Invalid()
+                v = o[2][int(a[1])]
+                op = op[:-1]
+            else:
+                v = int(a[1])
             if o[1] < 1:
                 raise Invalid()
             full = len(o[2]) == o[1]
@@ -251,7 +258,12 @@ def gen_random_case(rng, maxcap, maxlen):
         if k < 40:
             pushw = [28, 36, 16][bias_push]
             if k < pushw:
-                emit("rb %s %d %d" % (rng.pick(["pb", "pf", "eb", "ef"]), i, val()))
+                if items and rng.chance(1, 5):
+                    # push an element of the buffer itself: first, last or any (the discarded one when full and overwriting)
+                    j = rng.pick([0, len(items) - 1, rng.below(len(items))])
+                    emit("rb %s %d %d" % (rng.pick(["pbs", "pfs", "ebs", "efs"]), i, j))
+                else:
+                    emit("rb %s %d %d" % (rng.pick(["pb", "pf", "eb", "ef"]), i, val()))
             else:
                 emit("rb %s %d" % (rng.pick(["popb", "popf"]), i))
         elif k < 52:
@@ -305,7 +317,8 @@ def gen_layout_cases(maxcap):
                     for k in range(pos):
                         prefix += ["rb pb 1 %d" % (900 + k), "rb popf 1"]
                     prefix += ["rb pb 1 %d" % (100 + k) for k in range(size)]
-                    tails = [["rb pb 1 7"], ["rb pf 1 7"], ["rb popb 1"], ["rb popf 1"], ["rb copy 2 1", "rb iter 2", "rb drop 2"],
+                    tails = [["rb pb 1 7"], ["rb pf 1 7"], ["rb popb 1"], ["rb popf 1"], ["rb pbs 1 0"], ["rb pfs 1 %d" % max(0, size - 1)],
+                             ["rb ebs 1 %d" % max(0, size - 1)], ["rb efs 1 0"], ["rb copy 2 1", "rb iter 2", "rb drop 2"],
                              ["rb new 2 3 %d" % ow, "rb pb 2 5", "rb cassign 2 1", "rb iter 2", "rb drop 2"]]
                     tails += [["rb resize 1 %d" % nc] for nc in range(1, maxcap + 3)]
                     for t in tails:
